@@ -455,7 +455,7 @@ pub fn run(ctx: &Arc<Ctx>) {
     refmodels::selftest::run(&["sm2"]).unwrap_or_else(|e| ctx.machinery_error(format!("reference self-test failed: {}", e)));
     let pr = sm2::params();
     let (p, n) = (pr.p.clone(), pr.n.clone());
-    ctx.set_rule("fields: operands = all 4-limb values with limbs in {0,1,2^32,2^63,2^64-1} below the modulus, values within 4 of it, 2^256-m, m/2, R, R^2, seeded; unary ops on all, binary ops on all x extreme (thorough: all x all); crafted Montgomery products landing on 0, 1, m-1. Raw u256/u512 helpers on all limb patterns. Group: [j]G for j in {1,2,3,5,n-1,n-2,seeded} x Z in {1,2,p-1,seeded,R^-1 (stored as plain 1),R} plus 3 encodings of infinity, all ordered pairs through point_add, triples of different points sharing y (and their negatives) in 3 representations through point_add, all through dbl/neg/affine/validity/SEC1; off-curve triples; scalars {0,1,2,15,16,17,n-1, w, n-w, n+w for w<=300, 2^256-1, every v*16^i, every b*256^i, adjacent-byte sums, seeded} through g_mul / scalar_mul of 3 bases and of the point at infinity in 3 encodings; all 32x255 table entries; all sequences of <= 2 (thorough 3) scalar multiplications over related bases {B, -B, B re-represented, other point} x 2 scalars on one thread. Oracle: affine big-integer arithmetic.");
+    ctx.set_rule("fields: operands = all 4-limb values with limbs in {0,1,2^32,2^63,2^64-1} below the modulus, values within 4 of it, 2^256-m, m/2, R, R^2, seeded; unary ops on all, binary ops on all x extreme (thorough: all x all); crafted Montgomery products landing on 0, 1, m-1. Raw u256/u512 helpers on all limb patterns. Group: [j]G for j in {1,2,3,5,n-1,n-2,seeded} x Z in {1,2,p-1,seeded,R^-1 (stored as plain 1),R} plus 3 encodings of infinity, all ordered pairs through point_add, triples of different points sharing y (and their negatives) in 3 representations through point_add, all through dbl/neg/affine/validity/SEC1; off-curve triples; scalars {0,1,2,15,16,17,n-1, w, n-w, n+w for w<=300, 2^256-1, every v*16^i, every b*256^i, adjacent-byte sums, long runs of one bits, seeded} through g_mul / scalar_mul of 3 bases and of the point at infinity in 3 encodings; all 32x255 table entries; all sequences of <= 2 (thorough 3) scalar multiplications over related bases {B, -B, B re-represented, other point} x 2 scalars on one thread. Oracle: affine big-integer arithmetic.");
     let mut cases: Vec<Case> = Vec::new();
     let h = |x: &BigUint| hexbig(x);
     // ---- fields
@@ -587,6 +587,25 @@ pub fn run(ctx: &Arc<Ctx>) {
         scalars.push(("small".into(), BigUint::from(v)));
     }
     scalars.push(("n-1".into(), &n - 1u32));
+    {
+        let ones_runs: Vec<BigUint> = {
+        // runs of one bits: 2^k - 1 and 64 / 56 consecutive ones at several offsets (a "+1" that must ripple across
+        // limbs in a signed-digit recoding, a bit length taken through floating point, a window that is all ones)
+        let one = BigUint::one();
+        let mut v: Vec<BigUint> = Vec::new();
+        for k in [49u32, 56, 63, 64, 65, 112, 127, 128, 129, 191, 192, 193, 255] {
+            v.push((&one << k) - &one);
+        }
+        for s in [1u32, 13, 48, 64, 100, 128, 150, 190] {
+            v.push(((&one << 64u32) - &one) << s);
+            v.push(((&one << 56u32) - &one) << s);
+        }
+        v
+    };
+        for v in ones_runs {
+            scalars.push(("runs-of-ones".into(), v));
+        }
+    }
     for w in 0..=300u32 {
         scalars.push(("n-w".into(), &n - w));
         scalars.push(("w".into(), BigUint::from(w)));
